@@ -47,6 +47,7 @@ def required_cells(tier):
             "spec:float": 10, "spec:interval": 40, "spec:interval-reversed": 10,
             "spec:list-descending": 10, "order:ordered": 100,
             "order:anti": 100, "nt:2": 1, "nt:3": 1, "nt:4": 1,
+            "nt:time-dependent": 2,
             "dt:none+caller": 1, "dt:equal": 1, "dt:mismatch": 1,
             "pt-tempo-identity": 1, "bath-observables": 1,
             "entries_compared": 2000, "nan_entries_checked": 200}
@@ -63,7 +64,7 @@ def cases(tier, seed):
                 out.append({"kind": "spec", "seed": seed, "model": m,
                             "N": nmax, "lo": c, "hi": min(nspec, c + CHUNK),
                             "tier": tier})
-    nnt = 6 if tier == "quick" else 40
+    nnt = 12 if tier == "quick" else 60
     out += [{"kind": "nt", "seed": seed, "idx": i, "tier": tier}
             for i in range(nnt)]
     out += [{"kind": "dt", "seed": seed, "idx": i, "tier": tier}
@@ -244,7 +245,12 @@ def run_nt(case):
     env = ancilla.random_env(rng, d, 2, "unitary", 0.9)
     dt, start = 0.1, [0.0, 0.4][i % 2]
     pt = ancilla.build_process_tensor(env, nmax, dt=dt)
-    sysd = scen.random_system(rng, d, "const", n_lind=1)
+    # every second case: explicitly time-dependent system (the dynamics
+    # behind the correlations must start at start_time); the library
+    # integrates the Liouvillian to liouvillian_epsrel ~ 1.5e-8
+    td = bool(i % 2)
+    sysd = scen.random_system(rng, d, "td" if td else "const", n_lind=1)
+    tol = 1e-7 if td else TOL
     rho0 = gen.rand_state(rng, d)
     ops = [gen.cplx(rng, (d, d)) for _ in range(nops)]
     hp = scen.halfprops(sysd, dt, start, 256)
@@ -286,7 +292,7 @@ def run_nt(case):
             if valid:
                 monitors["entries_compared"] += 1
                 exp = table[steps]
-                if np.isnan(val) or abs(val - exp) > TOL:
+                if np.isnan(val) or abs(val - exp) > tol:
                     violations.append({
                         "what": f"{nops}-operator correlation sides={sides} "
                                 f"specs={specs!r}: entry {pos} (steps "
@@ -303,7 +309,8 @@ def run_nt(case):
                                 f"should be NaN",
                         "mechanism": "nan-pattern", "detail": {}})
                     break
-    return {"violations": violations[:6], "cells": [f"nt:{nops}"],
+    return {"violations": violations[:6],
+            "cells": [f"nt:{nops}"] + (["nt:time-dependent"] if td else []),
             "monitors": monitors, "nontrivial": True,
             "signature": f"nt-{nops}-{i}", "maxratio": 0.0, "obs": {},
             "sample": {"kind": "nt", "nops": nops,
